@@ -296,7 +296,7 @@ static void run_transform(Case const&) { throw verif::Fail("harness: transform c
 // ------------------------------------------------------------------------------------------------ sub-property 2: algorithms over ordered pairs
 enum Alg { A_COPY = 0, A_COPY_AC, A_COPY_CA, A_CONV, A_CONV_AC, A_CONV_CA, A_CONV_CC, A_EQ, A_EQ_AC, A_EQ_CA, A_FILL, A_FOREACH, A_RESAMPLE, A_RESAMPLE_AC, A_RESAMPLE_CA, A_COUNT };
 static const char* alg_name[] = {"copy_pixels(any,any)", "copy_pixels(any,view)", "copy_pixels(view,any)", "copy_and_convert_pixels(any,any)", "copy_and_convert_pixels(any,view)", "copy_and_convert_pixels(view,any)",
-                                 "copy_and_convert_pixels(any,any,cc)", "equal_pixels(any,any)", "equal_pixels(any,view)", "equal_pixels(view,any)", "fill_pixels(any,pixel)", "for_each_pixel(any,f)",
+                                 "copy_and_convert_pixels(any|view,any|view,cc)", "equal_pixels(any,any)", "equal_pixels(any,view)", "equal_pixels(view,any)", "fill_pixels(any,pixel)", "for_each_pixel(any,f)",
                                  "resample_pixels(any,any)", "resample_pixels(any,view)", "resample_pixels(view,any)"};
 
 struct Halver // a generic pixel functor that counts its calls, in the caller's counter and in its own state (the algorithm returns the functor)
@@ -312,12 +312,15 @@ struct Halver // a generic pixel functor that counts its calls, in the caller's 
         set_ch(p, 0, std::floor(get_ch(p, 0) / 2));
     }
 };
-struct SwapCC // a user colour converter: default conversion, then first channel inverted (to tell it from the default)
-{
+struct SwapCC // a user colour converter WITH STATE: default conversion, then (only when so constructed) first channel inverted; a
+{             // default-constructed one is the plain default conversion, so an algorithm that drops the caller's converter object is seen
+    bool invert = false;
+    SwapCC() = default;
+    explicit SwapCC(bool i) : invert(i) {}
     template <class S, class D> void operator()(S const& s, D& d) const
     {
         gil::default_color_converter()(s, d);
-        gil::at_c<0>(d) = gil::channel_invert(gil::at_c<0>(d));
+        if (invert) gil::at_c<0>(d) = gil::channel_invert(gil::at_c<0>(d));
     }
 };
 
@@ -429,7 +432,16 @@ static void run_pair_impl(Case const& c, int const* cls_s, int const* cls_d)
             case A_CONV: gil::copy_and_convert_pixels(sv, dv); gil::copy_and_convert_pixels(csv, cdv); expect_like_twin(); break;
             case A_CONV_AC: gil::copy_and_convert_pixels(sv, ddv); gil::copy_and_convert_pixels(csv, cdv); expect_like_twin(); break;
             case A_CONV_CA: gil::copy_and_convert_pixels(csv, dv); gil::copy_and_convert_pixels(csv, cdv); expect_like_twin(); break;
-            case A_CONV_CC: gil::copy_and_convert_pixels(sv, dv, SwapCC()); gil::copy_and_convert_pixels(csv, cdv, SwapCC()); expect_like_twin(); break;
+            case A_CONV_CC: // the three overloads taking a converter object, chosen by the case's offsets
+                switch ((ox + oy + w + h) % 3)
+                {
+                case 0: gil::copy_and_convert_pixels(sv, dv, SwapCC(true)); break;
+                case 1: gil::copy_and_convert_pixels(sv, ddv, SwapCC(true)); break;
+                default: gil::copy_and_convert_pixels(csv, dv, SwapCC(true)); break;
+                }
+                gil::copy_and_convert_pixels(csv, cdv, SwapCC(true));
+                expect_like_twin();
+                break;
             default: break;
             }
             else switch (alg)
